@@ -91,17 +91,21 @@ func (v *V1) ReadHeaderWithValidation(buf []byte, startFileOffset uint32) (paylo
 			"expected payload size: %d. actual buf size: %d ", startFileOffset+v1PayloadSizeLen, bufSize)
 	}
 
+	actualBufSize := bufSize - startFileOffset
+	if actualBufSize < v1PayloadSizeLen {
+		return payloadSize, previousCrc, payloadCrc, errors.Wrapf(ErrOffsetOutOfBounds,
+			"expected payload size: %d. actual buf size: %d ", startFileOffset+v1PayloadSizeLen, bufSize)
+	}
+
 	payloadSize = ReadInt(buf, startFileOffset)
 	// It shouldn't happen when normal reading
 	if payloadSize == 0 {
 		return payloadSize, previousCrc, payloadCrc, errors.Wrapf(ErrEmptyPayload, "unexpected empty payload")
 	}
-	expectSize := payloadSize + v.HeaderSize
-	// overflow checking
-	actualBufSize := bufSize - startFileOffset
-	if expectSize > actualBufSize {
+	// overflow checking: compare without adding to payloadSize, which could wrap around
+	if actualBufSize < v.HeaderSize || payloadSize > actualBufSize-v.HeaderSize {
 		return payloadSize, previousCrc, payloadCrc,
-			errors.Wrapf(ErrOffsetOutOfBounds, "expected payload size: %d. actual buf size: %d ", expectSize, bufSize)
+			errors.Wrapf(ErrOffsetOutOfBounds, "expected payload size: %d. actual buf size: %d ", payloadSize, bufSize)
 	}
 	return payloadSize, previousCrc, payloadCrc, nil
 }
